@@ -26,7 +26,7 @@ OPAQUE_FIELDS = ["Amount", "FirstValid", "LastValid", "NumAppArgs", "AssetAmount
 class Cfg:
     """generation parameters"""
     def __init__(self, **kw):
-        self.max_stmts = 6
+        self.max_stmts = 5
         self.max_depth = 3
         self.max_subs = 3
         self.shapes = False          # allow known-defect shapes
@@ -193,9 +193,59 @@ class Gen:
         if c == 7: return [f"int {k}", f"int {k+1}", "+", "pop"]
         return [f"byte 0x{k:02x}", "pop"]
 
+    def consume(self, depth, in_sub, in_loop):
+        """consume the condition on top of the stack: assert / negated assert / branch to an erring or approving arm"""
+        c = self.r.random()
+        if c < 0.4: return ["assert"]
+        if c < 0.55: return ["!", "assert"]
+        lab, end = self.label("arm"), self.label("join")
+        br = self.r.choice(["bz", "bnz"])
+        arm1 = self.r.choice([["err"], self.noise(), self.noise()])
+        arm2 = self.r.choice([["err"], self.noise(), self.noise()])
+        if arm1 == ["err"] and arm2 == ["err"]: arm2 = self.noise()
+        if arm1 == ["err"]:
+            return [f"{br} {lab}"] + arm1 + [f"{lab}:"] + arm2
+        return [f"{br} {lab}"] + arm1 + [f"b {end}", f"{lab}:"] + arm2 + [f"{end}:"]
+
+    def split_cond(self, depth, in_sub, in_loop):
+        """a condition one operand of which is computed in an EARLIER block (unknown to the block-local stack model)"""
+        first = self.opaque() if self.chance(0.6) else self.direct_check()
+        lab = self.label("mid")
+        boundary = [f"{lab}:"] if self.chance(0.6) else [f"b {lab}", f"{lab}:"]
+        second = self.direct_check()
+        conn = self.r.choice(["&&", "||"])
+        out = first + boundary + second + [conn]
+        if self.chance(0.3):
+            out += self.direct_check() + [self.r.choice(["&&", "||"])]
+        return out + self.consume(depth, in_sub, in_loop)
+
+    def shuffled_check(self):
+        """a governed comparison whose operands went through stack shuffling / multi-output opcodes"""
+        kind = self.r.choice(["fee", "addr", "size"])
+        if kind == "fee": a, b, op = ["txn Fee"], self.push_int(self.r.choice([1000, 272000, 272001])), self.r.choice(OPS)
+        elif kind == "size": a, b, op = ["global GroupSize"], self.push_int(self.r.choice([1, 2, 16])), self.r.choice(OPS)
+        else: a, b, op = [f"txn {self.r.choice(ADDR_FIELDS)}"], ["global ZeroAddress"], self.r.choice(["==", "!="])
+        k = self.r.randrange(0, 100)
+        c = self.r.randrange(0, 9)
+        if c == 0: return a + b + ["swap", "swap", op]
+        if c == 1: return b + a + ["swap", op]
+        if c == 2: return a + ["dup", "pop"] + b + [op]
+        if c == 3: return a + [f"int {k}"] + b + ["uncover 1", "pop", op]
+        if c == 4: return [f"int {k}"] + a + b + [op, "swap", "pop"]
+        if c == 5: return a + b + [f"int {k}", "cover 2", op, "swap", "pop"] if False else a + [f"int {k}", "pop"] + b + [op]
+        if c == 6: return a + b + ["dig 1", "pop", op]
+        if c == 7: return a + [f"int {k}", f"int {k}", "bury 1", "pop"] + b + [op]
+        return a + b + [f"int {k}", f"int {k+1}", "popn 2", op]
+
     # -- statements (stack neutral)
     def stmt(self, depth, in_sub, in_loop=False):
         c = self.r.random()
+        if c < 0.07:
+            return self.split_cond(depth, in_sub, in_loop)
+        if c < 0.12:
+            return self.shuffled_check() + self.consume(depth, in_sub, in_loop)
+        if c < 0.16 and depth < self.cfg.max_depth and not in_loop:
+            return self.do_while(depth, in_sub)
         if c < 0.30:
             return self.cond() + ["assert"]
         if c < 0.42 and self.cfg.noise:
@@ -261,17 +311,26 @@ class Gen:
         body = self.block(depth + 1, in_sub, True, self.r.randrange(1, 3))
         return [f"{top}:"] + self.opaque() + [f"bz {ex}"] + body + [f"b {top}", f"{ex}:"]
 
+    def do_while(self, depth, in_sub):
+        top = self.label("dtop")
+        body = self.block(depth + 1, in_sub, True, self.r.randrange(1, 3))
+        return [f"{top}:"] + body + self.opaque() + [f"{self.r.choice(['bz', 'bnz'])} {top}"]
+
     def switch(self, depth, in_sub, in_loop):
         n = self.r.randrange(1, 4)
         labs = [self.label("case") for _ in range(n)]
         end = self.label("send")
+        uniq = list(labs)
+        if n > 1 and self.chance(0.3):
+            labs = labs + [self.r.choice(labs)]          # the same label listed twice
+            self.r.shuffle(labs)
         out = [f"txn {self.r.choice(OPAQUE_FIELDS)}"]
         if self.chance(0.5):
             out += [f"switch {' '.join(labs)}"]
         else:
-            out = [f"int {i}" for i in range(n)] + out + [f"match {' '.join(labs)}"]
+            out = [f"int {i}" for i in range(len(labs))] + out + [f"match {' '.join(labs)}"]
         out += self.block(depth + 1, in_sub, in_loop, 1) + [f"b {end}"]
-        for l in labs:
+        for l in uniq:
             out += [f"{l}:"] + self.block(depth + 1, in_sub, in_loop, 1) + [f"b {end}"]
         out += [f"{end}:"]
         return out
@@ -349,6 +408,38 @@ def fragment(seed, index, **cfgkw):
     g = Gen(rng, Cfg(**cfgkw))
     src = g.program()
     return src, sorted(g.tags)
+
+
+# ---------------------------------------------------------------------------------------------
+# systematic small programs around ONE direct check (exact verdicts, C03 / C06 / C09 exactness)
+
+DIRECT_FIELDS = [("fee", "txn Fee"), ("size", "global GroupSize"), ("index", "txn GroupIndex"), ("gfee", "gtxn 0 Fee")]
+
+def direct(seed, index):
+    """program `index` of the systematic family: field x operator x operand order x constant x consumption form"""
+    r = random.Random(f"direct/{seed}/{index}")
+    kind, read = DIRECT_FIELDS[index % len(DIRECT_FIELDS)]
+    op = OPS[(index // 4) % 6]
+    const_first = (index // 24) % 2 == 1
+    form = (index // 48) % 6
+    if kind in ("fee", "gfee"): c = r.choice([0, 1000, 271999, 272000, 272001, 500000])
+    elif kind == "size": c = r.choice([1, 2, 3, 15, 16, 17])
+    else: c = r.choice([0, 1, 2, 14, 15, 16])
+    lit = r.choice([f"int {c}", f"pushint {c}"])
+    cmp_ = ([lit, read] if const_first else [read, lit]) + [op]
+    pre = ["#pragma version 8"]
+    if kind != "fee" or r.random() < 0.5:
+        pre += ["gtxn 1 Amount", "pop"]        # an absolute-index read, so that group-size-check applies
+    if form == 0: body = cmp_ + ["assert", "int 1", "return"]
+    elif form == 1: body = cmp_ + ["return"]
+    elif form == 2: body = cmp_ + ["bz bad", "int 1", "return", "bad:", "err"]
+    elif form == 3: body = cmp_ + ["bnz bad", "int 1", "return", "bad:", "err"]
+    elif form == 4: body = cmp_ + ["!", "assert", "int 1", "return"]
+    else: body = cmp_ + ["bnz good", "err", "good:", "int 1", "return"]
+    tags = ["constLeft"] if const_first and op in ("<", "<=", ">", ">=") else []
+    return "\n".join(pre + body) + "\n", tags
+
+N_DIRECT = 4 * 6 * 2 * 6
 
 
 # ---------------------------------------------------------------------------------------------
